@@ -195,10 +195,15 @@ def g_method(rng):
 
 
 def g_case(rng):
-    return {"op": "C01.run", "tag": "random", "phases": g_method(rng), "initial": "init",
-            "y0": rng.randint(-3, 5), "v0": [rng.randint(-4, 8) for _ in range(sc.ARR_LEN)],
-            "t0": rng.randint(0, 2), "dt": rng.choice([1, 1, 2]),
-            "max_steps": rng.randint(1, 5), "t_end": rng.choice([None, None, 3, 5]), "max_iters": 7}
+    c = {"op": "C01.run", "tag": "random", "phases": g_method(rng), "initial": "init",
+         "y0": rng.randint(-3, 5), "v0": [rng.randint(-4, 8) for _ in range(sc.ARR_LEN)],
+         "t0": rng.randint(0, 2), "dt": rng.choice([1, 1, 2]),
+         "max_steps": rng.randint(1, 5), "t_end": rng.choice([None, None, 3, 5]), "max_iters": 7}
+    if rng.random() < 0.25:
+        # the builder API takes text as well as expression objects: plain variables and numbers handed over as text
+        c["str_args"] = True
+        c["tag"] = "random+text-arguments"
+    return c
 
 
 # systematic part: every operator nested in every operand position of every operator (what the Python
@@ -251,6 +256,16 @@ def depth2(rng):
                     args = [leaf(rng, t) for t in osig]
                     args[slot] = inner
                     out.append((oty, fix_attr(omk(*args)), f"{oname}[{slot}]<-{iname}"))
+    # a conditional inside a branch of a conditional, under all four truth combinations, with three distinct values
+    # (whether a wrong grouping shows depends on exactly which condition holds)
+    tt, ff = ["cmp", "<", ["c", 1], ["c", 2]], ["cmp", "<", ["v", "<dt>"], ["c", 0]]
+    for slot in (1, 2):
+        for ci in (tt, ff):
+            for co in (tt, ff):
+                inner = ["if", ci, ["c", 11], ["c", 22]]
+                args = [co, ["c", 33], ["c", 44]]
+                args[slot] = inner
+                out.append(("I", ["if"] + args, f"if[{slot}]<-if:{int(ci is tt)}{int(co is tt)}"))
     return out
 
 
@@ -403,7 +418,7 @@ def build_code(case):
     phases = []
     for ph in case["phases"]:
         cb = CodeBuilder(ph["name"])
-        fresh, failed = c02.drive_builder(cb, ph["prog"])
+        fresh, failed = c02.drive_builder(cb, ph["prog"], case.get("str_args", False))
         if failed:
             raise ValueError("builder failed")
         phases.append(cb.as_execution_phase(ph["next"]))
